@@ -14,7 +14,7 @@ for id in $ids; do
   applies=true; (cd $W && git apply $patch) || applies=false
   tests=skipped; demo=skipped
   if $applies; then
-    tout=$(cd $W && for p in ./src/... ; do go test -vet=off -count=1 $p 2>&1; done | grep "^ok\|^FAIL\|^---" | grep -v "src/compiler" | tr '\n' ';')
+    tout=$(cd $W && for p in ./src/... ; do go test -vet=off -count=1 $p 2>&1; done | grep "^ok\|^FAIL\|^---" | grep -v "src/compiler" | grep -v "^FAIL$" | tr '\n' ';')
     if echo "$tout" | grep -q "FAIL\|^---"; then tests="FAIL: $tout"; else tests="pass: $tout"; fi
     mkdir -p /tmp/seeds
     demo=$(cd $d && timeout 900 bash ./demo.sh $W >/dev/null 2>&1; echo $?)
